@@ -15,7 +15,7 @@ var LoadYamlPreferences = YamlPreferences{
 }
 
 type loadPrefs struct {
-	decoder Decoder
+	decoderFactory func() Decoder
 }
 
 func loadString(filename string) (*CandidateNode, error) {
@@ -116,7 +116,7 @@ func loadOperator(d *dataTreeNavigator, context Context, expressionNode *Express
 
 		filename := nameCandidateNode.Value
 
-		contentsCandidate, err := loadWithDecoder(filename, loadPrefs.decoder)
+		contentsCandidate, err := loadWithDecoder(filename, loadPrefs.decoderFactory())
 		if err != nil {
 			return Context{}, fmt.Errorf("Failed to load %v: %w", filename, err)
 		}
